@@ -46,7 +46,7 @@ def gen_pipeline(r, k, profile, maxst, fresh):
         else:
             kinds.append("helper")
         m = r.below(14) if profile != "plain" else 99
-        sin.append("<" + r.choice(["inp", " inp", "missing", " inp2"]) if m == 0 else ("<<< hs%d%d" % (k, i) if m == 1 else None))
+        sin.append("<" + r.choice([" inp", " inp", " missing", " inp2", " inp", "inp"]) if m == 0 else ("<<< hs%d%d" % (k, i) if m == 1 else None))
     rds = [gen_redirs(r, k, profile, fresh) for _ in range(n)]
     isfail = lambda i: any(any(u in w for u in UNWRITABLE) for w in rds[i]) or (sin[i] is not None and "missing" in sin[i])
     # at most one stage of a pipeline prints a diagnostic (two would interleave their pieces)
@@ -70,7 +70,7 @@ def gen_pipeline(r, k, profile, maxst, fresh):
         can_write = (i == n - 1) or reads[i + 1]
         if kinds[i] == "builtin":
             # (minfd inside a pipeline prints a number that depends on the forked child's private descriptors: single commands only)
-            words = [r.choice(["minfd", "minfd", "alias", "alias a b c"] if n == 1 else (["alias"] if quiet else ["alias", "alias a b c"]))] if can_write else ["alias q7=v"]
+            words = [r.choice(["minfd", "minfd", "alias", "alias a b c"] if n == 1 else ["alias"])] if can_write else ["alias q7=v"]   # (the usage error is printed in two write calls: single commands only)
         elif kinds[i] == "notfound":
             words = ["nosuchprog", "x"]
         else:
@@ -89,10 +89,14 @@ def gen_pipeline(r, k, profile, maxst, fresh):
         rd = rds[i]
         if not can_write:
             rd = [w for w in rd if w != "2>&1"]
+        if quiet and not (fails[i] or kinds[i] == "notfound"):
+            rd = [w for w in rd if w not in DUP_OPS]      # (would route a marker line into the stream the diagnostic is written to)
         if sin[i] is not None:
             rd.insert(r.below(len(rd) + 1), sin[i])
         # redirections may sit anywhere after the program word
-        pos = [1 + r.below(len(words)) for _ in rd] if r.below(3) == 0 else [len(words)] * len(rd)
+        # (an attached `<file` right after the program word would become the helper's tag: keep it behind the tag)
+        lo = 2 if words[0] == "fdstage" else 1
+        pos = [min(len(words), lo + r.below(len(words))) for _ in rd] if r.below(3) == 0 else [len(words)] * len(rd)
         res = list(words)
         for p_, w in sorted(zip(pos, rd), key=lambda x: -x[0]):
             res.insert(p_, w)
